@@ -132,7 +132,7 @@ def table_strategy():
             mult = draw(st.integers(1, 8))
             extra = draw(st.sampled_from([0, 0, 1, b - 1, draw(st.integers(0, b))]))
             contigs.append(['ctg%d' % i, max(12, mult * b + extra)])
-        bin_tag = draw(st.sampled_from(['DS', 'DS', 'XS']))
+        bin_tag = draw(st.sampled_from(['DS', 'DS', 'XS', 'reference_start']))     # a SAM tag or a read attribute
         n = draw(st.integers(1, 25))
         recs = []
         for j in range(n):
@@ -166,7 +166,9 @@ def table_strategy():
             if draw(st.integers(0, 5)) == 0:
                 flag |= 16
             tags = {'SM': 'cell%d' % draw(st.integers(0, 2))}
-            if kind != 'none':
+            if bin_tag == 'reference_start':
+                pos = min(v, clen - qlen)
+            elif kind != 'none':
                 tags[bin_tag] = v
             if draw(st.booleans()):
                 tags['DA'] = draw(st.sampled_from(['a', 'b']))
@@ -189,8 +191,13 @@ def table_strategy():
                 clen = c2[tid][1]
                 v = draw(st.sampled_from([0, clen - 1, draw(st.integers(0, clen - 1)), (clen // b) * b]))
                 v = min(max(0, v), clen - 1)
-                r2.append({'name': 's%d' % j, 'flag': 0, 'tid': tid, 'pos': draw(st.integers(0, clen - 10)), 'mapq': 60, 'cigar': '5M',
-                           'tags': {'SM': 'cell%d' % draw(st.integers(0, 2)), bin_tag: v}, 'mtid': -1, 'mpos': -1})
+                p2 = draw(st.integers(0, clen - 10))
+                t2 = {'SM': 'cell%d' % draw(st.integers(0, 2))}
+                if bin_tag == 'reference_start':
+                    p2 = min(v, clen - 5)
+                else:
+                    t2[bin_tag] = v
+                r2.append({'name': 's%d' % j, 'flag': 0, 'tid': tid, 'pos': p2, 'mapq': 60, 'cigar': '5M', 'tags': t2, 'mtid': -1, 'mpos': -1})
             second = {'contigs': c2, 'records': r2}
         return {'contigs': contigs, 'records': recs, 'opts': opts, 'second': second}
     return case()
@@ -231,8 +238,8 @@ def eval_table(case):
     bt = o['binTag']
     boundary = False
     for r in recs:
-        if ct.passes_filters(r, o) and bt in r['tags']:
-            v = r['tags'][bt]
+        if ct.passes_filters(r, o) and ct.read_value(r, bt, contigs) is not None:
+            v = ct.read_value(r, bt, contigs)
             if v % b == 0 or v % s == 0 or v == 0 or v == contigs[r['tid']][1] - 1:
                 boundary = True
     out.nontrivial = boundary and len(exp) > 0
@@ -247,7 +254,7 @@ def eval_table(case):
         sub = kind
         if kind == 'extra':
             end = key[1][-1]
-            vals = {r['tags'].get(bt) for r in recs}
+            vals = {ct.read_value(r, bt, contigs) for r in recs}
             sub = 'extra-window-ending-at-x' if end in vals else 'extra'
         out.bad('table:%s%s' % (sub, ':two-files' if second else ''), 'opts %r: cell %r got %r expected %r (%d differing cells; total got %.3f expected %.3f)' % (
             o, key, g, e, len(diffs), sum(got.values()), sum(exp.values())))
